@@ -1,6 +1,173 @@
-//! Driver for libFuzzer campaigns (thorough tier).  Filled in together with /verif/fuzz.
-use crate::engine::Runner;
+//! Driver for the libFuzzer campaigns of the thorough tier (harness/fuzz, built with cargo-fuzz).
+//! A campaign is bounded by a number of executions (fixed work), starts from a fresh corpus seeded
+//! with a few generated inputs, and every crash artefact is re-executed in-process through the
+//! same sub-check so that the reported replay file fails the same oracle.
+use crate::engine::*;
+use serde_json::json;
+use std::process::Command;
 
-pub fn run_fuzz(_runner: &mut Runner, target: &'static str, _runs: u64) {
-    eprintln!("note: fuzz target {target} not wired up yet");
+struct Target {
+    prop: &'static str,
+    kind: &'static str,
+    station: bool,
+    max_len: usize,
+}
+
+fn target_info(t: &str) -> Target {
+    match t {
+        "fz_decoder" => Target { prop: "C10", kind: "fuzz_bytes", station: false, max_len: 262 },
+        "fz_diag" => Target { prop: "C17", kind: "fuzz_bytes", station: false, max_len: 246 },
+        "fz_gsd" => Target { prop: "C19", kind: "fuzz_bytes", station: false, max_len: 600 },
+        "fz_station" => Target { prop: "C05", kind: "programs_small", station: true, max_len: 400 },
+        _ => panic!("unknown fuzz target {t}"),
+    }
+}
+
+fn to_tape(info: &Target, bytes: &[u8]) -> Vec<u32> {
+    if info.station {
+        tape_from_bytes(bytes)
+    } else {
+        bytes.iter().map(|b| u32::from(*b)).collect()
+    }
+}
+
+fn harness_dir() -> String {
+    // the binary lives in <harness>/target/release/pbcheck
+    let exe = std::env::current_exe().expect("current_exe");
+    exe.parent().and_then(|p| p.parent()).and_then(|p| p.parent()).expect("harness dir").display().to_string()
+}
+
+pub fn run_fuzz(runner: &mut Runner, target: &'static str, runs: u64) {
+    let info = target_info(target);
+    assert_eq!(info.prop, runner.prop.id, "fuzz target {target} does not belong to {}", runner.prop.id);
+    let hd = harness_dir();
+    let build = Command::new("cargo").args(["+nightly", "fuzz", "build", target]).current_dir(&hd).env("CARGO_NET_OFFLINE", "true").output();
+    match build {
+        Ok(o) if o.status.success() => {}
+        Ok(o) => {
+            eprintln!("INCONCLUSIVE: cargo fuzz build {target} failed:\n{}", String::from_utf8_lossy(&o.stderr).lines().rev().take(20).collect::<Vec<_>>().into_iter().rev().collect::<Vec<_>>().join("\n"));
+            std::process::exit(2);
+        }
+        Err(e) => {
+            eprintln!("INCONCLUSIVE: cannot run cargo fuzz: {e}");
+            std::process::exit(2);
+        }
+    }
+    let work = format!("{hd}/fuzz/work/{target}");
+    let _ = std::fs::remove_dir_all(&work);
+    let corpus = format!("{work}/corpus");
+    let artifacts = format!("{work}/artifacts/");
+    std::fs::create_dir_all(&corpus).unwrap();
+    std::fs::create_dir_all(&artifacts).unwrap();
+    // seed corpus: generated inputs of typical shapes
+    let mut r = SplitMix(runner.seed ^ fingerprint(&target));
+    for i in 0..24 {
+        let n = match i % 4 {
+            0 => 6,
+            1 => 14,
+            2 => 1 + r.below(60) as usize,
+            _ => 1 + r.below(info.max_len as u64 / 2) as usize,
+        };
+        let mut b: Vec<u8> = (0..n).map(|_| r.next() as u8).collect();
+        if !info.station && i % 2 == 0 {
+            // look like a frame
+            let frames: [&[u8]; 4] = [&[0x10, 0x22, 0x02, 0x49, 0x6D, 0x16], &[0xDC, 0x07, 0x0F], &[0x68, 0x05, 0x05, 0x68, 0x85, 0x82, 0x08, 0x3E, 0x3C, 0x09, 0x16], &[0xE5]];
+            b = frames[i / 2 % 4].to_vec();
+        }
+        std::fs::write(format!("{corpus}/seed-{i:02}"), &b).unwrap();
+    }
+    let bin = format!("{hd}/fuzz/target/x86_64-unknown-linux-gnu/release/{target}");
+    let workers = workers().min(16) as u64;
+    let per_job = (runs / workers).max(1);
+    let status = Command::new(&bin)
+        .args([
+            &format!("-artifact_prefix={artifacts}"),
+            &format!("-runs={per_job}"),
+            &format!("-seed={}", (runner.seed % 0xFFFF_FFFF).max(1)),
+            "-len_control=0",
+            &format!("-max_len={}", info.max_len),
+            &format!("-jobs={workers}"),
+            &format!("-workers={workers}"),
+            "-print_final_stats=1",
+            &corpus,
+        ])
+        .current_dir(&work)
+        .output();
+    let out = match status {
+        Ok(o) => o,
+        Err(e) => {
+            eprintln!("INCONCLUSIVE: cannot start {bin}: {e}");
+            std::process::exit(2);
+        }
+    };
+    // executions actually done (from the per-job logs)
+    let mut executed = 0u64;
+    if let Ok(rd) = std::fs::read_dir(&work) {
+        for e in rd.filter_map(|e| e.ok()) {
+            let p = e.path();
+            if p.extension().map(|x| x == "log").unwrap_or(false) {
+                if let Ok(text) = std::fs::read_to_string(&p) {
+                    for l in text.lines() {
+                        if let Some(rest) = l.strip_prefix("stat::number_of_executed_units:") {
+                            executed += rest.trim().parse::<u64>().unwrap_or(0);
+                        }
+                    }
+                }
+            }
+        }
+    }
+    let corpus_files: Vec<std::path::PathBuf> = std::fs::read_dir(&corpus).map(|rd| rd.filter_map(|e| e.ok()).map(|e| e.path()).collect()).unwrap_or_default();
+    let mut obs = Obs::default();
+    // crashes
+    let crashes: Vec<std::path::PathBuf> = std::fs::read_dir(&artifacts).map(|rd| rd.filter_map(|e| e.ok()).map(|e| e.path()).collect()).unwrap_or_default();
+    let mut tolerated = std::collections::BTreeMap::new();
+    for c in &crashes {
+        let Ok(bytes) = std::fs::read(c) else { continue };
+        let tape = to_tape(&info, &bytes);
+        let data = ReplayData::Tape(tape);
+        let was = runner.strict;
+        runner.strict = true;
+        let r = runner.replay(info.kind, &data);
+        runner.strict = was;
+        match r {
+            Err(fl) => {
+                let known = !runner.strict && runner.known.iter().any(|k| k.signature == fl.signature);
+                if known {
+                    *tolerated.entry(fl.signature.clone()).or_insert(0u64) += 1;
+                } else if runner.violations.is_empty() {
+                    runner.violations.push(Violation { kind: info.kind.to_string(), data, failure: Failure::new(fl.signature, format!("found by libFuzzer target {target} ({}): {}", c.display(), fl.msg)) });
+                }
+            }
+            Ok(()) => {
+                eprintln!("INCONCLUSIVE: libFuzzer artefact {} of {target} does not fail when replayed in-process (timeout / out-of-memory / sanitizer report?)", c.display());
+                eprintln!("{}", String::from_utf8_lossy(&out.stderr).lines().rev().take(15).collect::<Vec<_>>().into_iter().rev().collect::<Vec<_>>().join("\n"));
+                std::process::exit(2);
+            }
+        }
+    }
+    if !out.status.success() && crashes.is_empty() {
+        eprintln!("INCONCLUSIVE: {target} exited with {:?} without leaving an artefact", out.status.code());
+        std::process::exit(2);
+    }
+    // evidence: corpus entries are the distinct (coverage increasing) cases
+    obs.begin_public();
+    for (i, p) in corpus_files.iter().enumerate() {
+        if let Ok(b) = std::fs::read(p) {
+            obs.nontrivial(fingerprint(&b));
+            if i < 3 {
+                let h: String = b.iter().take(64).map(|x| format!("{:02x}", x)).collect::<Vec<_>>().join(" ");
+                obs.sample_force(json!({"corpus_entry": h, "len": b.len()}));
+            }
+        }
+    }
+    obs.commit_public();
+    runner.reports.push(StepReport {
+        kind: target.to_string(),
+        what: format!("libFuzzer campaign, entry {}::{} (same oracle as the proptest front end)", info.prop, info.kind),
+        mode: format!("coverage-guided, {executed} executions in {workers} jobs, fresh corpus seeded with 24 generated inputs, final corpus {} entries", corpus_files.len()),
+        evaluations: executed.max(1),
+        exhaustive: false,
+        obs,
+        tolerated,
+    });
 }
